@@ -256,6 +256,11 @@ def extract_unit(unit, flags=None, roots=None):
             out = _cache_path(unit, aflags, roots, with_overlay=True)
             meta = out + ".meta"
     if os.path.exists(out) and _valid(meta):
+        for q in (out, meta, out + ".cg"):      # mark as recently used (cache GC removes least recently used entries)
+            try:
+                os.utime(q)
+            except OSError:
+                pass
         return out
     os.makedirs(os.path.dirname(out), exist_ok=True)
     tmp = "%s.tmp.%d.%d" % (out, os.getpid(), int(time.time() * 1000) % 1000000)
@@ -292,6 +297,30 @@ def extract_many(units, progress=False):
     with ThreadPoolExecutor(max_workers=JOBS) as ex:
         paths = list(ex.map(extract_unit, units))
     return dict(zip(units, paths))
+
+
+def gc_cache(max_files=9000, keep=4500):
+    """Bound the fact cache: edited trees leave stale entries behind (content-addressed). Oldest entries go first."""
+    d = os.path.join(CACHE, "facts")
+    try:
+        names = os.listdir(d)
+    except OSError:
+        return
+    if len(names) <= max_files:
+        return
+    paths = []
+    for n in names:
+        p = os.path.join(d, n)
+        try:
+            paths.append((os.stat(p).st_mtime, p))
+        except OSError:
+            pass
+    paths.sort()
+    for _, p in paths[:max(0, len(paths) - keep)]:
+        try:
+            os.unlink(p)
+        except OSError:
+            pass
 
 
 def all_units():
